@@ -340,38 +340,19 @@ func (l *commitLog) LatestOffsetBeforeTimestamp(timestamp int64) (int64, error) 
 	if err != nil {
 		return 0, errors.Wrap(err, "failed to find log segment for timestamp")
 	}
-	// Search the previous segment for the first entry whose timestamp is
-	// greater than or equal to the given timestamp. If this is the first
-	// segment, just search it.
-	var seg *segment
+	// All entries at or before the timestamp are in the segments preceding
+	// it. If there are none, the timestamp is before the start of the log
+	// (or the log is empty).
 	if idx == 0 {
-		seg = l.segments[0]
-		// if the given timestamp is before the start of the stream return an
-		// error.
-		if timestamp < seg.FirstWriteTime() {
-			return 0, errors.New("timestamp is before the beginning of the log")
-		}
-	} else {
-		seg = l.segments[idx-1]
+		return 0, errors.New("timestamp is before the beginning of the log")
 	}
-
-	// Find entry equal to or greater than the given timestamp.
-	entry, err := seg.findEntryByTimestamp(timestamp)
-	if err == nil {
-		// If it's an exact match, return the offset.
-		if entry.Timestamp == timestamp {
-			return entry.Offset, nil
-		}
-
-		// Otherwise we want the previous offset.
-		return entry.Offset - 1, nil
-	}
-
-	if err != ErrEntryNotFound && err != io.EOF {
+	// The previous segment starts at or before the timestamp, so it contains
+	// the latest such entry.
+	entry, err := l.segments[idx-1].findLatestEntryBeforeTimestamp(timestamp)
+	if err != nil {
 		return 0, errors.Wrap(err, "failed to find log entry for timestamp")
 	}
-
-	return seg.lastOffset, nil
+	return entry.Offset, nil
 }
 
 // SetHighWatermark sets the high watermark on the log. All messages up to and
